@@ -16,7 +16,7 @@ import time
 
 VERIF = os.path.dirname(os.path.abspath(__file__))
 REPO = os.environ.get("MECH_REPO", "/repo")
-CACHE = os.path.join(VERIF, "cache")
+CACHE = os.environ.get("MECH_CACHE") or os.path.join(VERIF, "cache")   # a working clone may use its own cache (parallel pipeline runs)
 SCRATCH = os.environ.get("MECH_SCRATCH", "/tmp/mechverif-scratch-" + hashlib.sha256(VERIF.encode()).hexdigest()[:8])
 DRIVER = os.path.join(VERIF, "tools/mechfacts/target/debug/mechfacts")
 MECHSYN = os.path.join(VERIF, "tools/mechsyn/target/release/mechsyn")
